@@ -89,7 +89,25 @@ pub fn expected_sections(
         Ok(ResolvedRecord::Referral { ns_rrs }) => (Vec::new(), ns_rrs.clone(), false, Rcode::NoError),
         Err(_) => (Vec::new(), Vec::new(), false, Rcode::NoError),
     };
-    if an.is_empty() && au.is_empty() && rc == Rcode::NoError {
+    // what cannot be put on the wire at all (RDATA beyond 65 535 octets, more
+    // records than a count field holds - the serialiser is the judge) can only be
+    // answered with a failure
+    let unserialisable = {
+        let mut m = Message::from_question(
+            0,
+            Question {
+                name: dns_types::protocol::types::DomainName::root_domain(),
+                qtype: QueryType::Record(RecordType::A),
+                qclass: QueryClass::Record(RecordClass::IN),
+            },
+        );
+        m.answers.clone_from(&an);
+        m.authority.clone_from(&au);
+        m.to_octets().is_err()
+    };
+    if unserialisable {
+        (Vec::new(), Vec::new(), false, Rcode::ServerFailure)
+    } else if an.is_empty() && au.is_empty() && rc == Rcode::NoError {
         (an, au, false, Rcode::ServerFailure)
     } else {
         (an, au, aa, rc)
@@ -273,7 +291,13 @@ fn deep_pointer_chain_query(id: u16, qname: &str, links: usize) -> Vec<u8> {
 fn gen_c09(seed: u64, _index: u64, tier: Tier) -> ServerPlan {
     let mut r = Rng::new(seed);
     let authoritative_only = r.chance(0.7);
-    let (apex, recs) = c09_zone(&mut r);
+    let (apex, mut recs) = c09_zone(&mut r);
+    // now and then a record no reply can carry: 70 000 octets of text in one TXT
+    // record (the zone parser takes it; RDLENGTH has 16 bits).  Own random stream.
+    let has_huge = Rng::new(seed ^ 0x4875_6765_0000).chance(0.05);
+    if has_huge {
+        recs.push(Rec::new(&child_name("huge", &apex), &format!("TXT {}", "x".repeat(70_000)), 300));
+    }
     let soa = format!("SOA ns.{apex} admin.{apex} 1 3600 600 86400 60");
     let mut zone_body = zone_text(Some((&apex, &soa)), &recs);
     // names whose full reply lands exactly on and around the 512-byte limit
@@ -470,7 +494,16 @@ fn gen_c09(seed: u64, _index: u64, tier: Tier) -> ServerPlan {
         // random stream, so that the other messages of a plan stay what they were.
         {
             let mut r2 = Rng::new(seed ^ 0x5eed_c4a1_0000 ^ (messages.len() as u64));
-            if tcp && r2.chance(0.04) {
+            if has_huge && r2.chance(0.3) {
+                let hq = child_name("huge", &apex);
+                let mut q = Message::from_question(
+                    id,
+                    Question { name: dn(&hq), qtype: QueryType::Record(RecordType::TXT), qclass: QueryClass::Record(RecordClass::IN) },
+                );
+                q.header.recursion_desired = r2.chance(0.5);
+                bytes = q.to_octets().map(|b| b.to_vec()).unwrap_or_default();
+                what = format!("query {hq} TXT (a record too large for any reply)");
+            } else if tcp && r2.chance(0.04) {
                 let links = *r2.pick(&[300usize, 2000, 5000, 8100]);
                 bytes = deep_pointer_chain_query(id, &qname, links);
                 what = format!("query {qname} A with a chain of {links} compression pointers in the additional section");
